@@ -632,6 +632,7 @@ func search(l *mc.Local, kind string, w, h, depth int, full bool) {
 	}
 	s.identities(nil, m0)
 	frontier := [][]vop{nil}
+	queried := 0
 	for d := 0; d < depth && len(frontier) > 0; d++ {
 		var next [][]vop
 		for _, hist := range frontier {
@@ -646,6 +647,14 @@ func search(l *mc.Local, kind string, w, h, depth int, full bool) {
 				}
 				s.hist = hist
 				l.Beat("")
+				// every second transition starts from a parent that has already been QUERIED (its matrix
+				// and a row fetched): whatever a view memoises must not leak into the views derived from it
+				if queried++; queried%2 == 0 {
+					mc.Guard(func() {
+						src.GetMatrix()
+						src.GetRow(0, nil)
+					})
+				}
 				ns, nm := s.step(src, m, o, false)
 				l.Count("transitions", 1)
 				l.Count("evaluations", 1)
